@@ -7,7 +7,7 @@ use crate::engines::tlswire::*;
 pub fn run(ctx: &Ctx) -> i32 {
     let started = Instant::now();
     if let Some(path) = &ctx.replay {
-        return match read_replay(path).and_then(|rf| replay_one(ctx, &TlsEngine, &rf)) {
+        return match read_replay(path).and_then(|rf| if rf.engine == "tlsstack" { crate::props::stack::replay(ctx, "C12", &rf) } else { replay_one(ctx, &TlsEngine, &rf) }) {
             Ok(c) => c,
             Err(e) => {
                 eprintln!("replay failed: {e}");
@@ -17,6 +17,7 @@ pub fn run(ctx: &Ctx) -> i32 {
     }
     let mut total = Outcome::default();
     total.merge(run_generated(ctx, &TlsEngine, "transport-level", strategy, ctx.cases(60_000, 2_000_000), 300));
+    total.merge(crate::props::stack::leg(ctx, "C12"));
     finish(
         ctx,
         started,
